@@ -1,4 +1,5 @@
 import IofloModel.Lemmas.SkedTime
+import IofloModel.Model.SkedF64
 /-!
 # C02 — the scheduler runs each due tasker once per tick, on its period, in declared order
 
@@ -146,7 +147,7 @@ theorem C02_kth_run (p : Rat) (n : Nat) (s : St Rat ω) (hs : stateAt E n s0 = s
   have hdue : dueTime e0 s.events = e0.retime + k * p := by rw [dueTime_const e0 _ p hp, hk]
   have h := C02_runs_iff_due E s0 e0 hnd he0 h0 n s hs halive s1 mo hpass
   refine ⟨?_, ?_⟩
-  · by_contra hc
+  · apply Classical.byContradiction; intro hc
     rw [← hdue] at hc
     have := h.2 hc
     rw [this, hk] at hrun; omega
@@ -169,8 +170,8 @@ theorem C02_kth_run (p : Rat) (n : Nat) (s : St Rat ω) (hs : stateAt E n s0 = s
     have hm' := C02_runs_iff_due E s0 e0 hnd he0 h0 m sm hsm halivem s1m mm hpassm
     have hduem : dueTime e0 sm.events = e0.retime + k * p := by
       simp only [dueTime, hsame] at hdue ⊢; exact hdue
-    by_contra hc
-    have hle : dueTime e0 sm.events ≤ s0.stamp + m * s0.P := by rw [hduem]; exact not_lt.mp hc
+    apply Classical.byContradiction; intro hc
+    have hle : dueTime e0 sm.events ≤ s0.stamp + m * s0.P := by rw [hduem]; exact Rat.not_lt.mp hc
     obtain ⟨ev, hev, _⟩ := hm'.1 hle
     -- then the tasker would have `k+1` sends before pass `m+1 ≤ n`
     have hlen : (evOf e0.id sm1.events).length = k + 1 := by
@@ -192,12 +193,14 @@ theorem C02_every_tick_when_p_le_P (p : Rat) (hpP : p ≤ s0.P) (hP : 0 ≤ s0.P
   apply (C02_runs_iff_due E s0 e0 hnd he0 h0 n s hs halive s1 m hpass).1
   rw [dueTime_const e0 _ p hp]
   have hk := (chain_count E s0 e0.id hnd h0 n s hs).1
-  have hk' : ((evOf e0.id s.events).length : Rat) ≤ n := by exact_mod_cast hk
+  have hk' : ((evOf e0.id s.events).length : Rat) ≤ n := Rat.natCast_le_natCast.mpr hk
+  have h0' : (0 : Rat) ≤ ((evOf e0.id s.events).length : Rat) :=
+    Rat.natCast_le_natCast (a := 0).mpr (Nat.zero_le _)
   have h1 : ((evOf e0.id s.events).length : Rat) * p ≤ (evOf e0.id s.events).length * s0.P :=
-    mul_le_mul_of_nonneg_left hpP (by positivity)
+    Rat.mul_le_mul_of_nonneg_left hpP h0'
   have h2 : ((evOf e0.id s.events).length : Rat) * s0.P ≤ n * s0.P :=
-    mul_le_mul_of_nonneg_right hk' hP
-  linarith
+    Rat.mul_le_mul_of_nonneg_right hk' hP
+  grind
 
 end timing
 
@@ -206,17 +209,12 @@ every entry first due at the start stamp `|stamp|`, which is also the time of pa
 theorem C02_from_start {ω : Type} (E : Env Rat ω) (period stamp : Rat) (houses : List House) (w : ω)
     (hnd : (declared houses).Nodup) :
     let s0 := start E period stamp houses w
-    (ids s0.ready).Nodup ∧ s0.events = [] ∧ s0.tick = 0 ∧ s0.stamp = |stamp| ∧ s0.P = |period| ∧
+    (ids s0.ready).Nodup ∧ s0.events = [] ∧ s0.tick = 0 ∧
+    s0.stamp = (if stamp < 0 then -stamp else stamp) ∧ s0.P = (if period < 0 then -period else period) ∧
     ∀ e ∈ s0.ready, e.retime = s0.stamp := by
   have h := start_fields E period stamp houses w
-  have habs : ∀ x : Rat, TimeLike.abs x = |x| := by
-    intro x
-    show (if x < 0 then -x else x) = |x|
-    split
-    · rename_i hx; rw [abs_of_neg hx]
-    · rename_i hx; rw [abs_of_nonneg (not_lt.mp hx)]
   obtain ⟨a1, a2, a3, a4, a5, a6, a7⟩ := h
-  refine ⟨by rw [a1]; exact hnd, a2, a3, by rw [a4, habs], by rw [a6, habs], ?_⟩
+  refine ⟨by rw [a1]; exact hnd, a2, a3, a4, a6, ?_⟩
   intro e he
   rw [a7 e he, a4]
 
@@ -240,5 +238,94 @@ example : ((demo.run 50).2.events.filter (·.phase = .loop)).map (fun e => (e.ti
   decide +kernel
 
 example : (declared demo.houses).Nodup := by decide
+
+def demoStart : St Rat (World Rat) :=
+  start ScriptEnv demo.period demo.stamp demo.houses demo.taskers
+
+/-- non-vacuity of the timing theorems (`C02_runs_iff_due`, `C02_kth_run`,
+`C02_period_change_next_reschedule`): in the demo run the hypotheses hold for tasker 2
+(period 3/16, tick period 1/8) at pass `n = 3`: it is in `ready` from the start with `retime = 0`,
+pass 3 is reached, before it the tasker ran twice (`k = 2`, passes 0 and 2) without ending and with
+period 3/16 read each time, pass 3 completes, and the tasker runs in it
+(3/8 = 0 + 2·(3/16) ≤ 0 + 3·(1/8)); pass 1 was reached with one earlier run and did not run it. -/
+example :
+    (ids demoStart.ready).Nodup ∧ (∃ e ∈ demoStart.ready, e.id = 2 ∧ e.retime = 0) ∧ evOf 2 demoStart.events = [] ∧
+    ∃ s, stateAt ScriptEnv 3 demoStart = some s ∧
+      (evOf 2 s.events).length = 2 ∧
+      (∀ ev ∈ evOf 2 s.events, ev.result.terminal = false ∧ ev.periodAfter = 3/16) ∧
+      ∃ s1 m, forLoop ScriptEnv s.ready.length s false = .ok s1 m ∧ (evOf 2 s1.events).length = 3 := by
+  refine ⟨by decide +kernel, by decide +kernel, by decide +kernel, ?_⟩
+  have h : (match stateAt ScriptEnv 3 demoStart with
+      | some s => decide ((evOf 2 s.events).length = 2) &&
+          (evOf 2 s.events).all (fun ev => !ev.result.terminal && decide (ev.periodAfter = 3/16)) &&
+          (match forLoop ScriptEnv s.ready.length s false with
+           | .ok s1 _ => decide ((evOf 2 s1.events).length = 3)
+           | .exc _ _ => false)
+      | none => false) = true := by decide +kernel
+  split at h
+  · rename_i s hs
+    simp only [Bool.and_eq_true, decide_eq_true_eq, List.all_eq_true, Bool.not_eq_true'] at h
+    obtain ⟨⟨h1, h2⟩, h3⟩ := h
+    refine ⟨s, hs, h1, h2, ?_⟩
+    split at h3
+    · rename_i s1 m hf
+      exact ⟨s1, m, hf, by simpa using h3⟩
+    · simp at h3
+  · simp at h
+
+/-- … and tasker 0 (period 0 ≤ P) is sent to in every pass (`C02_every_tick_when_p_le_P`) -/
+example : ((demo.run 50).2.events.filter (fun e => e.phase = .loop ∧ e.id = 0)).map (·.tick) = [0,1,2,3,4,5,6] := by
+  decide +kernel
+
+/-! ## binary64 time (finding D2)
+
+The property is stated over real time "including decimal periods such as 0.1", the code computes
+with binary64. `F64` is binary64 addition/comparison on finite values as a kernel-evaluable
+function (`Model/SkedF64.lean`; the check runs it next to the hardware `Float` and CPython on every
+decimal case). -/
+
+/-- The property at full strength for binary64 time: every configuration, with its numbers rounded
+to binary64, runs exactly like the same configuration in exact arithmetic (same outcome, and in
+every pass the same controls to the same taskers with the same results) — so that the exact
+timing theorems above would describe the running code. -/
+def C02_full_binary64 : Prop :=
+  ∀ (c : Config Rat) (fuel : Nat), c.wellFormed = true → floatDrift c.toF64 c fuel = false
+
+/-- tick period 0.1, one tasker of period 0.2 that stops itself at its 5th send -/
+def decimalWitness : Config Rat :=
+  { period := 1/10, stamp := 0, houses := [{ fronts := [0], mids := [], backs := [] }],
+    taskers := [{ active := true, period := 1/5, tail := some (4, [.bid [0] .stop none]) }] }
+
+/-- **Counterexample (D2).** In binary64 the witness's tasker is sent to in passes 0, 2, 4, 7, 9, 11;
+exactly (and by `C02_kth_run`) it is due in passes 0, 2, 4, 6, 8, 10: `0.2+0.2+0.2 > 0.1+…+0.1`. -/
+theorem C02_counterexample_decimal_passes :
+    ((decimalWitness.toF64.run 50).2.events.filter (·.phase = .loop)).map (·.tick) = [0, 2, 4, 7, 9, 11] ∧
+    ((decimalWitness.run 50).2.events.filter (·.phase = .loop)).map (·.tick) = [0, 2, 4, 6, 8, 10] := by
+  decide +kernel
+
+theorem C02_counterexample_decimal : ¬ C02_full_binary64 := by
+  intro h
+  have := h decimalWitness 50 (by decide +kernel)
+  revert this
+  decide +kernel
+
+/-- **Partial (outside the region of D2).** For any time type (hardware `Float`, `F64`, …): if the
+decidable predicate `floatDrift cf cx fuel` is false — the harness evaluates this very predicate to
+attribute a failing decimal case to D2 — the run over that time type has the outcome of the exact
+run and, event by event, the same phase, pass number, tasker, control and result; so every statement
+of this file about passes, order and due passes of the exact run `cx` holds of the run `cf`. -/
+theorem C02_kth_run_float_partial {τ : Type} [TimeLike τ] (cf : Config τ) (cx : Config Rat) (fuel : Nat)
+    (h : floatDrift cf cx fuel = false) :
+    (cf.run fuel).1 = (cx.run fuel).1 ∧
+    (cf.run fuel).2.events.map Event.shape = (cx.run fuel).2.events.map Event.shape := by
+  simpa [floatDrift] using h
+
+/-- tick period 1/8, one tasker of period 1/4 -/
+def dyadicWitness : Config Rat :=
+  { period := 1/8, stamp := 0, houses := [{ fronts := [0], mids := [], backs := [] }],
+    taskers := [{ active := true, period := 1/4, tail := some (4, [.bid [0] .stop none]) }] }
+
+/-- non-vacuity of the partial theorem: a dyadic grid does not drift -/
+example : floatDrift dyadicWitness.toF64 dyadicWitness 50 = false := by decide +kernel
 
 end Ioflo.Sked
